@@ -174,3 +174,151 @@ func c11ActiveAddress(c *Ctx, r *Report, rule string) {
 		r.check(len(problems) == 0, rule, fnName, name, c.pos(fn.Pos()), fmt.Sprintf("%d paths, %d dial(s)", len(paths), dials), strings.Join(dedup(problems), "\n"))
 	}
 }
+
+// c11Provision evaluates Upstream.provision: how an upstream gets its peers, its connection limit and its view of
+// the passive health policy.
+func c11Provision(c *Ctx, r *Report, rule string) {
+	r.rule(rule, "Upstream.provision (path evaluation over: no health checks / no passive checks / passive checks with unhealthy_connection_count 0 or 3, max_connections 0, 1 or 5, 2 dial addresses each new or already known): on success the upstream has one peer per dial address in order (the stored one for a known address), max_connections is the configured value, or unhealthy_connection_count when it is unset and that is positive, and the health policy the availability test reads is the handler's passive policy; an address that does not parse or spans a port range fails provisioning", 12)
+	fnName := "modules/l4proxy.(*Upstream).provision"
+	fn := c.Fn(fnName)
+	if fn == nil {
+		r.bad(rule, fnName, "exists", "-", "function not found")
+		return
+	}
+	type hc struct {
+		name    string
+		checks  bool
+		passive bool
+		ucc     int64
+	}
+	for _, k := range []hc{{"no health checks", false, false, 0}, {"no passive checks", true, false, 0}, {"passive,ucc=0", true, true, 0}, {"passive,ucc=1", true, true, 1}, {"passive,ucc=3", true, true, 3}} {
+		for _, maxc := range []int64{0, 1, 5} {
+			name := fmt.Sprintf("%s,max_connections=%d", k.name, maxc)
+			sc := &Scenario{Name: name, MaxVisit: 5, MaxPaths: 5000,
+				Params: map[string]SV{"recv": symRef("u", false)},
+				ByType: map[string]SV{"modules/l4proxy.Handler": symRef("h", false), "caddy/v2.Context": {K: "struct", Desc: "ctx"}},
+				Heap: map[string]SV{"u.Dial": symSlice("dial", 2), "u.MaxConnections": symInt(maxc), "u.TLS": symNil(), "u.peers": symSlice("nil-peers", 0),
+					"h.logger": symRef("logger", false)},
+			}
+			switch {
+			case !k.checks:
+				sc.Heap["h.HealthChecks"] = symNil()
+			case !k.passive:
+				sc.Heap["h.HealthChecks"] = symRef("hc", false)
+				sc.Heap["hc.Passive"] = symNil()
+			default:
+				sc.Heap["h.HealthChecks"] = symRef("hc", false)
+				sc.Heap["hc.Passive"] = symRef("passive", false)
+				sc.Heap["passive.UnhealthyConnectionCount"] = symInt(k.ucc)
+				sc.Heap["passive.MaxFails"] = symInt(7)
+			}
+			nParse := 0
+			sc.Call = func(callee string, args []SV, ev *symEval, st *symState) (SV, bool) {
+				switch {
+				case strings.HasSuffix(callee, "caddy/v2.NewReplacer"):
+					return symRef("repl", false), true
+				case strings.HasSuffix(callee, "Replacer).ReplaceKnown"), strings.HasSuffix(callee, "Replacer).ReplaceAll"):
+					return SV{K: "str", Desc: "resolved(" + args[1].Desc + ")"}, true
+				case strings.HasPrefix(callee, "(*go.uber.org/zap.Logger)"), strings.HasPrefix(callee, "go.uber.org/zap."), callee == "fmt.Errorf":
+					if callee == "fmt.Errorf" {
+						return SV{K: "ref", Known: true, Desc: "errorf"}, true
+					}
+					return symRef("named-logger", false), true
+				}
+				return SV{}, false
+			}
+			sc.Alts = func(callee string, args []SV, ev *symEval, st *symState) []CallAlt {
+				switch {
+				case strings.HasSuffix(callee, "caddy/v2.ParseNetworkAddress"):
+					nParse++
+					a := SV{K: "struct", Desc: "addr(" + args[0].Desc + ")"}
+					return []CallAlt{{Ret: symTuple(a, symNil()), Note: "parsed"}, {Ret: symTuple(SV{K: "struct", Desc: "zeroaddr"}, SV{K: "ref", Known: true, Desc: "parseErr"}), Note: "bad"}}
+				case strings.HasSuffix(callee, "NetworkAddress).PortRangeSize"):
+					return []CallAlt{{Ret: symInt(1), Note: "one port"}, {Ret: symInt(3), Note: "range"}, {Ret: symInt(0), Note: "empty"}}
+				case strings.HasSuffix(callee, "UsagePool).LoadOrStore") || strings.HasSuffix(callee, "sync.Map).LoadOrStore"):
+					known := symRef("known("+args[1].Desc+")", false)
+					known.Dyn, known.DynT = "*modules/l4proxy.peer", nil
+					return []CallAlt{{Ret: symTuple(args[2], symBool(false)), Note: "new"}, {Ret: symTuple(known, symBool(true)), Note: "known:" + known.Desc}}
+				}
+				return nil
+			}
+			paths, err := evalPaths(fn, sc)
+			if err != nil || len(paths) == 0 {
+				r.bad(rule, fnName, name, c.pos(fn.Pos()), fmt.Sprintf("undecided: %v", err))
+				continue
+			}
+			var problems []string
+			okPaths := 0
+			for _, p := range paths {
+				if p.Outcome != "return" || len(p.Ret) != 1 {
+					problems = append(problems, "undecided path: "+p.Outcome)
+					continue
+				}
+				// what happened to the addresses
+				mustFail := false
+				var want []string // expected peers
+				for _, e := range p.Trace {
+					if e.Kind != "call" {
+						continue
+					}
+					switch {
+					case strings.HasSuffix(e.What, "ParseNetworkAddress") && e.Note == "bad":
+						mustFail = true
+					case strings.HasSuffix(e.What, "PortRangeSize") && e.Note != "one port":
+						mustFail = true
+					case strings.HasSuffix(e.What, "LoadOrStore"):
+						if strings.HasPrefix(e.Note, "known:") {
+							want = append(want, strings.TrimPrefix(e.Note, "known:"))
+						} else {
+							want = append(want, e.Args[len(e.Args)-1])
+						}
+					}
+				}
+				failed := !(p.Ret[0].Known && p.Ret[0].Nil)
+				if mustFail != failed {
+					problems = append(problems, fmt.Sprintf("an address that does not parse or spans a port range: provisioning fails=%v, expected %v", failed, mustFail))
+					continue
+				}
+				if failed {
+					continue
+				}
+				okPaths++
+				// peers
+				ps := p.Heap["u.peers"]
+				var got []string
+				if ps.Len != nil && ps.Len.Known {
+					for i := int64(0); i < ps.Len.N; i++ {
+						d := p.Heap[fmt.Sprintf("%s[%d]", ps.Desc, i)].Desc
+						if j := strings.Index(d, ").("); j > 0 && strings.HasPrefix(d, "known(") {
+							d = d[:j+1] // the stored value asserted to *peer
+						}
+						got = append(got, d)
+					}
+				}
+				if len(want) != 2 || strings.Join(got, ",") != strings.Join(want, ",") {
+					problems = append(problems, fmt.Sprintf("the upstream's peers are %v, expected one per dial address in order: %v", got, want))
+				}
+				// limit
+				wantMax := maxc
+				if k.passive && k.ucc > 0 && maxc == 0 {
+					wantMax = k.ucc
+				}
+				if mv := p.Heap["u.MaxConnections"]; !(mv.Known && mv.N == wantMax) {
+					problems = append(problems, fmt.Sprintf("max_connections ends up as %s, expected %d (configured %d, unhealthy_connection_count %d)", mv.Desc, wantMax, maxc, k.ucc))
+				}
+				// policy
+				pol := p.Heap["u.healthCheckPolicy"]
+				switch {
+				case k.passive && pol.Desc != "passive":
+					problems = append(problems, "the upstream's health policy is "+pol.Desc+", expected the handler's passive policy: max_fails has no effect on availability")
+				case !k.passive && !(pol.Desc == "" || (pol.Known && pol.Nil)):
+					problems = append(problems, "the upstream gets a health policy ("+pol.Desc+") although no passive checks are configured")
+				}
+			}
+			if okPaths == 0 {
+				problems = append(problems, "no successful provisioning path")
+			}
+			r.check(len(problems) == 0, rule, fnName, name, c.pos(fn.Pos()), fmt.Sprintf("%d paths (%d successful)", len(paths), okPaths), strings.Join(dedup(problems), "; "))
+		}
+	}
+}
